@@ -26,7 +26,13 @@ RULE = ("random image pairs 3..14 x 4..18 (mono / 2-3 bands with band selection;
         "{3,5}) x subpix {1,2,4}; plus images smaller than the window, 1..w+2 rows/columns (census / zncc return "
         "early there: all NaN expected, any exception is a violation). One case = one cost volume (every "
         "cost compared). Non-trivial: the volume holds both NaN and non-NaN costs; distinct by (measure, "
-        "window, subpix, size, interval/grid, masks present, hash of the images)")
+        "window, subpix, size, interval/grid, masks present, hash of the images). "
+        "PLUS the generated-code cases of harness/mc_gen.py (counted in the same totals; see stats gen_*): every "
+        "(subpix 1/2/4, left width 1..7, right width in {same, -1, +2}, disparity up to 3 columns beyond the image) "
+        "for the real point_interval against the extracted generated one (non-trivial: non-empty range), 40 random "
+        "grid pairs for get_min_max_from_grid, and every sample of the real axis of 6 (subpix, width) settings for the "
+        "translated statements of the four loops executed on real objects (distinct by function, subpix, width, "
+        "disparity)")
 ASSUMES = [
     "integer radiometry (|v| <= 1023 sad/census, <= 255 zncc, <= 60 ssd so that every float32 intermediate is "
     "exact); float32 rounding on real-valued radiometry is outside the model",
